@@ -484,4 +484,155 @@ theorem generic_close_then_operator (j : Bool) (r : Toks) :
     (firstMatch (.punct '|' true :: .punct '>' j :: r)).map (·.comb) = some (some .map) := by
   refine ⟨by det_simp, by det_simp, by det_simp⟩
 
+/-! ### 6. Whole chains of unary operators: parse ∘ render = id -/
+
+/-- a scan over an operand that is followed by nothing runs to the end of the input -/
+theorem scan_to_end (o : Oracle) (syn : Syn) (ae : Bool) (x : Toks)
+    (hx : ∀ t ∈ x, isTilde t = false)
+    (hnosplit : ∀ p s, x = p ++ s → s ≠ [] → stopHere o syn ae p s = false)
+    (fuel : Nat) (hfuel : x.length + 1 ≤ fuel) :
+    scan o syn ae fuel [] x false = .ok (x, none, false, []) := by
+  suffices H : ∀ (s acc : Toks) (fuel : Nat), acc ++ s = x → s.length + 1 ≤ fuel →
+      scan o syn ae fuel acc s false = .ok (x, none, false, []) from H x [] fuel (by simp) hfuel
+  intro s
+  induction s with
+  | nil =>
+    intro acc fuel hacc hf
+    obtain ⟨fuel, rfl⟩ : ∃ f, fuel = f + 1 := ⟨fuel - 1, by simp at hf; omega⟩
+    simp only [List.append_nil] at hacc
+    subst hacc
+    simp [scan]
+  | cons t s ih =>
+    intro acc fuel hacc hf
+    obtain ⟨fuel, rfl⟩ : ∃ f, fuel = f + 1 := ⟨fuel - 1, by simp at hf; omega⟩
+    have htx : isTilde t = false := hx t (by rw [← hacc]; simp)
+    have hdef : Tables.deferredDet.check (t :: s) = false := by
+      cases hc : Tables.deferredDet.check (t :: s) with
+      | false => rfl
+      | true =>
+        obtain ⟨j', r, hr⟩ := (deferred_iff _).1 hc
+        simp only [List.cons.injEq] at hr
+        rw [hr.1] at htx; simp [isTilde] at htx
+    have hstrip : stripTilde (t :: s) = t :: s := by unfold stripTilde; rw [hdef]; simp
+    have hns := hnosplit acc (t :: s) hacc.symm (by simp)
+    rw [scan_continue o syn ae fuel acc _ false t _ (by simp) hns hstrip, hdef]
+    exact ih (acc ++ [t]) fuel (by simpa using hacc) (by simp at hf ⊢; omega)
+
+theorem parseUntil_end (o : Oracle) (syn : Syn) (ae : Bool) (x : Toks)
+    (hx : ∀ t ∈ x, isTilde t = false) (hvalid : o.valid syn x = true)
+    (hnosplit : ∀ p s, x = p ++ s → s ≠ [] → stopHere o syn ae p s = false) :
+    parseUntil o syn ae x = .ok ⟨x, none, []⟩ := by
+  unfold parseUntil
+  rw [scan_to_end o syn ae x hx hnosplit _ (by simp)]
+  simp [hvalid]
+
+theorem eraseN_append (a b : Toks) : eraseN a.length (a ++ b) = some b := by
+  induction a with
+  | nil => rfl
+  | cons t a ih => simpa [eraseN] using ih
+
+/-- a written unary action: `[~] op operand` -/
+structure SrcAct where
+  row : DetRow
+  comb : Comb
+  ctor : Comb
+  op : Toks
+  deferred : Bool
+  tildeJoint : Bool
+  x : Toks
+
+def renderActs : List SrcAct → Toks
+  | [] => []
+  | a :: as => (if a.deferred then [TT.punct '~' a.tildeJoint] else []) ++ (a.op ++ (a.x ++ renderActs as))
+
+/-- an operand followed by `after`: no `~`, complete, no top-level split point -/
+def OperandOK (o : Oracle) (x after : Toks) : Prop :=
+  (∀ t ∈ x, isTilde t = false) ∧ o.valid .expr x = true ∧
+  ∀ p s, x = p ++ s → s ≠ [] → stopHere o .expr false p (s ++ after) = false
+
+/-- every action is a unary expression operator recognised where it stands, with an operand that has no split point -/
+def ActsOK (o : Oracle) : List SrcAct → Prop
+  | [] => True
+  | a :: as =>
+    a.row.comb = some a.comb ∧ arityOf a.comb = some ⟨a.ctor, 1, false, .expr⟩ ∧ a.op.length = a.row.len ∧
+    Tables.deferredDet.check (a.op ++ (a.x ++ renderActs as)) = false ∧
+    firstMatch (a.op ++ (a.x ++ renderActs as)) = some a.row ∧
+    Tables.wrapperDet.check (a.x ++ renderActs as) = false ∧
+    OperandOK o a.x (renderActs as) ∧ ActsOK o as
+
+def expMember (o : Oracle) (a : SrcAct) : Member := ⟨a.ctor, a.deferred, .none, [mkOperand o .expr a.x]⟩
+
+theorem unary_not_unwrap (c ctor : Comb) (h : arityOf c = some ⟨ctor, 1, false, .expr⟩) : (c == Comb.unwrap) = false := by
+  cases c <;> try rfl
+  have : arityOf Comb.unwrap = some ⟨.unwrap, 0, true, .expr⟩ := by decide
+  rw [this] at h
+  cases h
+
+/-- one member with a unary operator, given what `parse_until` returns for its operand -/
+theorem parseGroup_unary (o : Oracle) (c ctor : Comb) (d : Bool) (input x rest : Toks) (nx : Option NextGroup)
+    (har : arityOf c = some ⟨ctor, 1, false, .expr⟩)
+    (hpu : parseUntil o .expr false input = .ok ⟨x, nx, rest⟩) :
+    parseGroup o ⟨c, d, .none⟩ input = .ok ((⟨ctor, d, .none, [mkOperand o .expr x]⟩, [x]), nx, rest) := by
+  simp [parseGroup, har, parseNOrEmpty, parseUnits, hpu]
+
+/-- **Parse ∘ render = id for chains of unary operators.**  An initial value followed by any number of actions
+    `[~] op operand` — `op` any of the operators that take one expression operand, each recognised where it stands, every
+    operand complete and without a top-level split point: the chain builder returns exactly these members, in order,
+    each with the `~` flag it was written with, and consumes the whole input. -/
+theorem chain_roundtrip_unary_partial (o : Oracle) (acts : List SrcAct) :
+    ∀ (c ctor : Comb) (d : Bool) (x : Toks) (members : List Member) (pat : Option BranchPat) (isFirst : Bool) (fuel : Nat),
+      arityOf c = some ⟨ctor, 1, false, .expr⟩ → OperandOK o x (renderActs acts) → ActsOK o acts →
+      (isFirst = true → o.letSplit x = .notLet) → acts.length + 1 ≤ fuel →
+      buildChain o fuel ⟨c, d, .none⟩ (x ++ renderActs acts) members pat 0 isFirst =
+        .ok (⟨pat, members ++ (⟨ctor, d, .none, [mkOperand o .expr x]⟩ :: acts.map (expMember o))⟩, []) := by
+  induction acts with
+  | nil =>
+    intro c ctor d x members pat isFirst fuel har hx _ hlet hf
+    obtain ⟨fuel, rfl⟩ : ∃ f, fuel = f + 1 := ⟨fuel - 1, by simp at hf; omega⟩
+    obtain ⟨hx1, hx2, hx3⟩ := hx
+    have hpu := parseUntil_end o .expr false x hx1 hx2 (fun p s h1 h2 => by simpa [renderActs] using hx3 p s h1 h2)
+    have hpg := parseGroup_unary o c ctor d x x [] none har hpu
+    simp only [renderActs, List.append_nil]
+    unfold buildChain
+    rw [hpg]
+    cases isFirst with
+    | false => simp [mkOperand, eatComma]
+    | true => simp [hlet rfl, mkOperand, eatComma]
+  | cons a as ih =>
+    intro c ctor d x members pat isFirst fuel har hx hacts hlet hf
+    obtain ⟨fuel, rfl⟩ : ∃ f, fuel = f + 1 := ⟨fuel - 1, by simp at hf; omega⟩
+    obtain ⟨hx1, hx2, hx3⟩ := hx
+    obtain ⟨ha1, ha2, ha3, ha4, ha5, ha6, ha7, ha8⟩ := hacts
+    have herase : eraseN a.row.len (a.op ++ (a.x ++ renderActs as)) = some (a.x ++ renderActs as) := by
+      rw [← ha3]; exact eraseN_append _ _
+    have hpu := parseUntil_roundtrip o .expr false x (a.op ++ (a.x ++ renderActs as)) (a.x ++ renderActs as) a.row a.comb
+      a.deferred a.tildeJoint false hx1 ha4 ha5 ha1 hx2
+      (fun p s h1 h2 => by simpa [renderActs] using hx3 p s h1 h2) herase ha6 (by simp)
+    simp only [Bool.false_eq_true, if_false, unary_not_unwrap a.comb a.ctor ha2] at hpu
+    have hinput : x ++ renderActs (a :: as) =
+        x ++ ((if a.deferred then [TT.punct '~' a.tildeJoint] else []) ++ (a.op ++ (a.x ++ renderActs as))) := rfl
+    have hpg := parseGroup_unary o c ctor d _ x _ _ har hpu
+    rw [hinput]
+    unfold buildChain
+    rw [hpg]
+    have hrec := ih a.comb a.ctor a.deferred a.x (members ++ [⟨ctor, d, .none, [mkOperand o .expr x]⟩]) pat false fuel
+      ha2 ha7 ha8 (by simp) (by simp at hf ⊢; omega)
+    have hw : (if a.deferred = true then (0 : Int) else 0) = 0 := by split <;> rfl
+    cases isFirst with
+    | false =>
+      simp only [Bool.false_eq_true, if_false]
+      simp [hw, hrec, expMember, List.append_assoc]
+    | true =>
+      simp only [if_true, hlet rfl]
+      simp [hw, hrec, expMember, List.append_assoc]
+
+/-- the whole branch: initial value, then the actions -/
+theorem branch_roundtrip_unary_partial (o : Oracle) (x0 : Toks) (acts : List SrcAct)
+    (hx0 : OperandOK o x0 (renderActs acts)) (hlet : o.letSplit x0 = .notLet) (hacts : ActsOK o acts) :
+    buildChain o (acts.length + 1) ⟨.initial, false, .none⟩ (x0 ++ renderActs acts) [] none 0 true =
+      .ok (⟨none, ⟨.initial, false, .none, [mkOperand o .expr x0]⟩ :: acts.map (expMember o)⟩, []) := by
+  have := chain_roundtrip_unary_partial o acts .initial .initial false x0 [] none true (acts.length + 1)
+    (by decide) hx0 hacts (fun _ => hlet) (Nat.le_refl _)
+  simpa using this
+
 end JoinModel.Props.C14
